@@ -42,6 +42,7 @@ RULE += (' ' + 'Also generated: members of a nested enum (Outer.Mode) and of an 
 RULE += (' ' + 'Round 7: multi-line strings with carriage returns; a sub-fixture named like an imported module.')
 RULE += (' ' + 'Round 6: members of enums with an int / str mix-in (IntEnum, (str, Enum)).')
 RULE += (' ' + 'Rounds 3-5: complex unshared node inside a sub-fixture; nested sub-fixtures in every dict order; same-named modules (harness.vuni.fractions vs fractions); named tuples; parameters/classes whose names become Python keywords. The listed sub-fixture finding applies only when sharing crosses a sub-fixture boundary.')
+RULE += (' ' + 'Round 8: one tuple object holding an otherwise unshared Buildable or list, referenced from two parents under the same argument name (sharing must survive the generated code).')
 ASSUMPTIONS = [
     'tagged arguments all have values (property precondition)',
     'formatting of the emitted text is not judged',
@@ -150,6 +151,22 @@ def strategy_(draw, tier):
     return {'kind': 'config', 'recipe': {'nodes': nodes, 'root': len(nodes) - 1}, 'scenario': 'samemod',
             'gen': draw(st.sampled_from(['new_codegen', 'auto_config_codegen'])),
             'subs': [], 'mec': draw(st.sampled_from([None, None, 1])), 'history': False}
+  if draw(st.sampled_from(range(16))) == 0:
+    # round 8: one tuple object holding an otherwise unshared Buildable (or list), referenced from
+    # two parents under the same argument name
+    mk = lambda fn, **kw: {'k': 'B', 'bt': 'Config', 'fn': {'kind': 'sym', 'name': fn}, 'pos': [], 'kw': kw, 'edits': []}
+    if draw(st.booleans()):
+      nodes = [mk('things:Base', x={'leaf': 'uidI'})]
+    else:
+      nodes = [{'k': 'list', 'items': [{'leaf': 1}, {'leaf': 2}]}]
+    nodes.append({'k': 'tuple', 'items': [0, {'leaf': 1}]})
+    slot = draw(st.sampled_from(['child', 'y']))
+    nodes.append(mk('things:f2', x={'leaf': 'uidL'}, **{slot: 1}))
+    nodes.append(mk(draw(st.sampled_from(['things:Base', 'things:f2'])), x={'leaf': 'uidR'}, **{slot: 1}))
+    nodes.append(mk('things:h1', a={'leaf': 'uidT'}, b=2, c=3))
+    return {'kind': 'config', 'recipe': {'nodes': nodes, 'root': 4}, 'scenario': 'sharedtuple',
+            'gen': draw(st.sampled_from(['new_codegen', 'auto_config_codegen'])),
+            'subs': [], 'mec': draw(st.sampled_from([None, None, 5, 8, 12])), 'history': False}
   recipe = draw(dags.dag(
       max_nodes=8, min_nodes=2, leaf_profile='any_enum', bts=('Config', 'Config', 'Partial'),
       kinds=['B', 'B', 'B', 'list', 'tuple', 'dict', 'kdict', 'Bpos', 'AFP', 'set', 'nt',
